@@ -245,6 +245,12 @@ def file_route_table(run):
         a = format(0x401000 + 4 * i, "x")
         lines.append(f"  {a}:\t48 89 e5             \t{(m + ' ').ljust(7) + ops if ops else m}")
         want += f"{a}::{m},{','.join(norm)},|"
+    for k, (m, ops, norm, b7, rest) in enumerate([("movq", "$0x1,0x100(%rsp)", ["0x1", "[%rsp+0x100]"], "48 c7 84 24 00 01 00", "00 01 00 00 00"), ("movq", "$0x2,0x100(%rsp)", ["0x2", "[%rsp+0x100]"], "48 c7 84 24 00 01 00", "00 02 00 00 00"),
+                                            ("movabs", "$0x4000000000000000,%rax", ["0x4000000000000000", "%rax"], "48 b8 00 00 00 00 00", "00 00 40"), ("movabs", "$0x8000000000000000,%rax", ["0x8000000000000000", "%rax"], "48 b8 00 00 00 00 00", "00 00 80")]):
+        a = format(0x402000 + 16 * k, "x")
+        lines.append(f"  {a}:\t{b7} \t{(m + ' ').ljust(7) + ops}")
+        lines.append(f"  {format(0x402000 + 16 * k + 7, 'x')}:\t{rest} ")
+        want += f"{a}::{m},{','.join(norm)},|"
     for nm, text in (("LF", "\n".join(lines) + "\n"), ("CRLF", "\r\n".join(lines) + "\r\n"), ("no_final_newline", "\n".join(lines))):
         got = jasmapi.file_route_stream(text)
         if nm == "LF":
